@@ -218,6 +218,20 @@ func symAff(v ssa.Value, depth int) Aff {
 	if depth > 12 {
 		return affSym(v)
 	}
+	if fx, ok := v.(*ssa.Field); ok {
+		if fwd := fieldOfLiteral(fx); fwd != nil {
+			return symAff(fwd, depth+1)
+		}
+	}
+	if ld, ok := v.(*ssa.UnOp); ok && ld.Op == token.MUL {
+		if fa, isFA := ld.X.(*ssa.FieldAddr); isFA {
+			if a, isA := fa.X.(*ssa.Alloc); isA && !a.Heap {
+				if fwd := localStructField(a, fa.Field, ld, 0); fwd != nil {
+					return symAff(fwd, depth+1)
+				}
+			}
+		}
+	}
 	switch x := v.(type) {
 	case *ssa.BinOp:
 		switch x.Op {
